@@ -580,7 +580,29 @@ def gen_fail(rng):
     sim = dict(maxdata=rng.choice([4096, 8192]), burst=rng.random() < 0.5, wrte_split=rng.choice([None, [3], [9], [1], [8, 100]]), remote_ids=rand_remote_ids(rng),
                okay_after_reply=rng.random() < 0.4)
     ops = [connect_op(rng)]
-    kind = rng.choice(["pull_fail", "push_fail_status", "push_fail_early", "pull_invalid", "push_invalid", "stat_invalid", "list_invalid", "pull_fail_after_data"])
+    kind = rng.choice(["pull_fail", "push_fail_status", "push_fail_early", "pull_invalid", "push_invalid", "stat_invalid", "list_invalid", "pull_fail_after_data",
+                       "trailing", "trailing"])
+    if kind == "trailing":
+        # the device keeps writing on the stream after the record that ends the transfer (DONE / FAIL / the STAT reply): those WRTEs are still in
+        # flight when the host closes the stream; they must be neither delivered nor acknowledged
+        extra = b"".join(sync_rec(b"DATA", 3, data=b"zzz") for _ in range(rng.choice([1, 3, 12])))
+        sim["burst"] = True
+        sim["wrte_split"] = rng.choice([[8], [11], [20], [5, 40]])
+        sub = rng.choice(["pull", "pull_fail", "list", "stat"])
+        if sub == "pull":
+            sim["fs"] = {b"/x": ("raw", sync_rec(b"DATA", 3, data=b"abc") + sync_rec(b"DONE", 0) + extra)}
+            ops.append(dict(op="pull", path=b"/x"))
+        elif sub == "pull_fail":
+            sim["fs"] = {b"/x": ("raw", sync_rec(b"DATA", 3, data=b"abc") + sync_rec(b"FAIL", len(msg), data=msg) + extra)}
+            sim["expect"] = ("AdbCommandFailureException", msg)
+            ops.append(dict(op="pull", path=b"/x"))
+        elif sub == "list":
+            sim["fs"] = {b"/x": ("raw", sync_rec(b"DENT", 1, 2, 3, 1, data=b"a") + sync_rec(b"DONE", 0, 0, 0, 0) + extra)}
+            ops.append(dict(op="list", path=b"/x"))
+        else:
+            sim["stat"] = {b"/x": ("raw", sync_rec(b"STAT", 1, 2, 3) + extra)}
+            ops.append(dict(op="stat", path=b"/x"))
+        return dict(envs=[base_env(rng, sim)], ops=ops, files=files, failkind=kind)
     if kind == "pull_fail":
         sim["fs"] = {b"/x": ("fail", msg)}
         if rng.random() < 0.3:
